@@ -299,6 +299,8 @@ def run(ctx, rep):
         rets = [b for b in range(f.n) if f.blocks[b]["t"]["k"] == "return"]
         okr, why = counter_reset(f, views_of(f, [state_param(f)]), after_bb=None, exits=rets)
         rep.ob("INIT", "%s|counter reset = 00..00 then byte0 = 1" % f0.name[-9:], okr, why, loc=f0.loc())
+    _nw = cm.read_after_wipe(rep, ctx.prog("full"), ("classic::crypto_secretstream", "dryocstream::"))
+    rep.note("WIPE-ORDER: %d wipe(s) of local buffers checked in the secret-stream code" % _nw)
 
 
 def counter_reset(f, stv, after_bb, exits):
